@@ -158,6 +158,19 @@ PROPS = {
                 "boundary, submitted directly, queued and posted; behaviours record the static type, the dynamic type found in the Kleene "
                 "'any', the occurrence id and the payload checksum",
     },
+    "C20": {
+        "jobs": jobs(["storage"], ["storage", "queue", "fork"], 1500, 60000, variants=ALLV)
+                + [job("storage", "storage", 300, 10000, variants=ALLV, san="_asan"),
+                   job("storage", "throws", 200, 5000, variants=ALLV, san="_asan"),
+                   job("queue_nested", "storage", 200, 5000, variants=ALLV, san="_asan"),
+                   job("defer_basic", "storage", 200, 5000, variants=ALLV, san="_asan")],
+        "nontrivial": ["queued"],
+        "rule": "histories of submit / defer / dispatch / copy / assign / move / clear / stop / destroy with events pending, over event "
+                "classes of 9..520 bytes, alignment up to 64, trivially copyable / non-trivial / potentially-throwing move / self-referential; "
+                "every construction and destruction of a tracked class goes through an instance registry (live == pending after every op, "
+                "0 after the last machine is gone, no double destroy, no use after destroy); payload pattern and self-pointer verified at "
+                "every behaviour; the same runs under AddressSanitizer + UBSan + LeakSanitizer; non-trivial = events were pending at a quiescent point",
+    },
     "C19": {
         "jobs": jobs(["nest2_mixed", "order_rows", "conflict_ortho"], ["plain", "posts"], 500, 20000, variants=POLV)
                 + [job(f, "common", 800, 30000, variants=["B", "B+p1", "B+p2", "B+p3"], mode="diff:policy") for f in ["nest2_mixed", "order_rows", "conflict_ortho"]]
